@@ -201,23 +201,57 @@ def run(ctx):
                detail="failed side records FailedInAnotherThread and starts no job" if ok else "a target that failed in another process is started again or not reported")
 
     # ---- R5.5
-    waits = [(p, y, r, c) for (p, y, r, c) in ba.awaits() if c and re.search(r"builder::wait_for::\{closure#0\}", c)]
-    ctx.floor("R5.5", "awaits of wait_for in the scheduler", len(waits), 2)
+    # A *wait* is an await of the scheduling passes during which finished jobs can record their results: the awaited
+    # future is derived from the job-future stream (today `wait_for(fg, job_futures.as_mut())` and the
+    # `job_futures.for_each(..)` flush; equally a `select!` over `job_futures.next()` written in place). The stream is
+    # identified as the receiver of the pushes, the awaits by value flow: no callee name, no count of call sites.
+    stream_roots = set()
+    for pb in pushes:
+        stream_roots |= common.operand_origin_paths(S, S.blocks[pb]["term"]["args"][0])
+    s_up = {r[1] for (r, f) in stream_roots if r[0] == "upvar"}
+    s_loc = {r[1] for (r, f) in stream_roots if r[0] != "upvar"}
+    from core import upvar_index
+    stream_t = taint(S, seeds=s_loc, src_place=lambda p: (upvar_index(p) or (None, None))[0] in s_up, mode="derived") if stream_roots else set()
+    polls_stream = common.in_set(S, stream_t)
+    waits = [(p, y, r, c) for (p, y, r, c) in ba.awaits() if polls_stream(op_local(S.blocks[p]["term"]["args"][0]))]
+    ctx.floor("R5.5", "awaits in the scheduling passes that poll the job-future stream", len(waits), 2)
     starts = ba.calls(re.escape(start_key))
     errtests = set()
     for i in ba.calls(r"core::result::Result::is_err"):
         errtests.add(i)
+    # the stop-or-continue decisions: a test of `errored` (a switch on the value of Result::is_err) combined with a
+    # test of env.keep_going (read in place or earlier, e.g. hoisted into a local captured by the passes); the head of
+    # a decision is whichever of the two switches comes first
+    err_sw = ba.switches_on_call(r"core::result::Result::is_err")
+    kg = keep_going_switches(prog, S)
+    decisions = []
+    for (sw, t_t, f_t) in kg:
+        under = [e for e in err_sw if ba.edge_dominates((e[0], e[1]), sw)]        # errored && !keep_going
+        over = [e for e in err_sw if ba.edge_dominates((sw, f_t), e[0])]           # !keep_going && errored
+        if under:
+            decisions.append((under[-1][0], sw, f_t))
+        elif over:
+            decisions.append((sw, sw, over[0][1]))
+        else:
+            decisions.append((None, sw, f_t))
+    heads = frozenset(h for (h, _, _) in decisions if h is not None)
     for k, (pbb, y, ready, c) in common.ordinal_keys([("wait_for", x) for x in waits]):
         p = ba.path([ready], starts, avoid=frozenset(errtests), incl=True) if ready is not None else [0]
         ctx.ob("R5.5", "%s|%s|error-test-before-start" % (S.key, k), p is None, where=ctx.where(S, pbb),
                detail="every path from this wait to a job start re-reads the shared result" if p is None else "a job can be started after this wait without looking at the shared result",
                witness={"path": p[:15] if p else None})
-    kg = common.field_switches(S, "env::Env.keep_going")
-    ctx.floor("R5.5", "tests of env.keep_going in the scheduler", len(kg), 2)
-    for k, (sw, t_t, f_t) in common.ordinal_keys([("keep_going", x) for x in kg]):
-        # the keep_going==false edge (reached only when errored): no start reachable before another error test
-        p = ba.path([f_t], starts, avoid=frozenset(errtests), incl=True)
-        dom_err = any(ba.dominates(e, sw) for e in errtests)
+        # (replaces the former floor of two keep_going tests: what is necessary is not their number but that each
+        # wait is followed by one before anything more is started)
+        p = ba.path([ready], starts, avoid=heads, incl=True) if ready is not None else [0]
+        ctx.ob("R5.5", "%s|%s|stop-or-continue-decision-before-start" % (S.key, k), p is None and bool(heads), where=ctx.where(S, pbb),
+               detail="every path from this wait to a job start passes the (errored and not keep_going) decision" if p is None and heads else
+               "after this wait jobs are started without the (errored and not keep_going) decision: a failure no longer stops the run without --keep-going",
+               witness={"path": p[:15] if p else None})
+    ctx.floor("R5.5", "tests of env.keep_going in the scheduler", len(kg), 1)
+    for k, (head, sw, stop_t) in common.ordinal_keys([("keep_going", x) for x in decisions]):
+        # the stop edge (errored and keep_going == false): no start reachable before another error test
+        p = ba.path([stop_t], starts, avoid=frozenset(errtests), incl=True)
+        dom_err = head is not None and any(ba.dominates(e, sw) or ba.dominates(sw, e) for e in errtests)
         ctx.ob("R5.5", "%s|%s|stop-side-starts-nothing" % (S.key, k), p is None and dom_err, where=ctx.where(S, sw),
                detail="errored and not keep_going: no further job start without a new error test" if p is None and dom_err else "jobs are started after a failure without --keep-going",
                witness={"path": p[:15] if p else None})
@@ -266,6 +300,58 @@ def failed_first(ctx, rid):
            detail="failed_runid.is_some() returns Dirty before stamps and dependencies are inspected" if found and okk else "a recorded failure does not force Dirty first")
 
 
+def keep_going_switches(prog, S):
+    """[(switch_bb, true_target, false_target)] bool switches of S on the value of `env.keep_going`: the switch
+    operand is a direct copy of a place ending in that field, read in S itself or, when the read was hoisted out of
+    the passes, in the enclosing body that constructs S and captures the local."""
+    FIELD = "env::Env.keep_going"
+    ba = BA.of(S)
+    parent = prog.bodies.get(strip_generics(S.parent or "")) if S.parent else None
+    cap = common.captured_from(parent, S.key) if parent is not None else {}
+
+    def is_kg(place):
+        for (root, fields) in common.operand_origin_paths(S, {"copy": place}):
+            if fields[-1:] == (FIELD,):
+                return True
+            if root[0] == "upvar" and not fields and parent is not None:
+                for l in cap.get(root[1], ()):
+                    if any(f2[-1:] == (FIELD,) for (_, f2) in common.origin_paths(parent, l)):
+                        return True
+        return False
+    out = []
+    for i in sorted(ba.live):
+        bs = ba.bool_switch(i)
+        if not bs:
+            continue
+        t_t, f_t, (kind, info) = bs
+        if kind == "place" and is_kg(info):
+            out.append((i, t_t, f_t))
+    return out
+
+
+def callback_result_switches(J, cb):
+    """[(switch_bb, ok_target, err_target)] every branch of J on the Ok/Err-ness of the callback's result itself
+    (not of a part of it): `match`/`if let` on the value or on a borrow of it, and `?` applied to it (the switch
+    after Try::branch: Continue = Ok side, Break = Err side)."""
+    jba = BA.of(J)
+    dest = J.blocks[cb]["term"]["dest"]["l"]
+
+    def is_result(o):
+        return any(root == ("def", dest) and not fields for (root, fields) in common.operand_origin_paths(J, o))
+    out = []
+    for sw in sorted(jba.live):
+        es = jba.enum_switch(sw)
+        if not es:
+            continue
+        place, arms, other = es
+        if is_result({"copy": place}):
+            out.append((sw, arms[0] if 0 in arms else other, arms[1] if 1 in arms else other))
+    for (br, brk, cont, src) in jba.try_sites():
+        if is_result(J.blocks[br]["term"]["args"][0]):
+            out.append((J.blocks[br]["term"]["target"], cont, brk))
+    return out
+
+
 def callback_error_rule(ctx, rid):
     prog = ctx.prog
     J = anchors.job_start(prog)
@@ -275,26 +361,24 @@ def callback_error_rule(ctx, rid):
     if not ctx.ob(rid, "%s|callback-call" % J.key, len(cb_calls) == 1, where=J.span, detail="%d indirect dirtiness-callback calls" % len(cb_calls)):
         return
     cb = cb_calls[0]
-    # is the callback's result fed directly to `?`
-    direct_q = [(br, brk, cont, src) for (br, brk, cont, src) in jba.try_sites() if src is not None and src[0] == cb]
-    ok_rets = common.blocks_with_agg(J, r"core::result::Result", "Ok")
-    if direct_q:
-        br, brk, cont, src = direct_q[0]
-        p = jba.path([brk], ok_rets, incl=True)
-        ok = p is not None
-        ctx.ob(rid, "%s|callback-Err-can-become-job-result" % J.key, ok, where=ctx.where(J, cb),
-               detail=("the callback's error is returned with `?`: an ImmediateExit status (already-failed target, exit 32) aborts the whole scheduler "
-                       "instead of becoming this job's result, ignoring --keep-going") if not ok else "error edge can yield a job future")
-    else:
-        # matched explicitly: the Err arm must be able to produce an Ok(future)
-        es = None
-        nxt = J.blocks[cb]["term"].get("target")
-        ok = False
-        for sw in sorted(jba.live):
-            e = jba.enum_switch(sw)
-            if e and e[0]["l"] == J.blocks[cb]["term"]["dest"]["l"]:
-                err_t = e[1].get(1, e[2])
-                p = jba.path([err_t], ok_rets, avoid=frozenset([e[1].get(0)]) if e[1].get(0) is not None else frozenset(), incl=True)
-                ok = p is not None
-        ctx.ob(rid, "%s|callback-Err-can-become-job-result" % J.key, ok, where=ctx.where(J, cb),
-               detail="the callback's Err arm can produce the job's exit status" if ok else "the callback's Err arm never yields a job result")
+    # Some branch on the callback's result must have an Err side from which the function can still return Ok(future)
+    # *without* going through the Ok side of any branch on that same result (such a path is not an Err path: e.g.
+    # `if let Err(e) = &r { log(e) }; let v = r?;` continues only when r is Ok). Shape-independent: `match`, `if let`
+    # on a borrow followed by `?`, let-else, a helper inlined in place.
+    sws = callback_result_switches(J, cb)
+    into_ret = backward_direct(J, 0, depth=200)[0]
+    ok_rets = [i for i in common.blocks_with_agg(J, r"core::result::Result", "Ok")
+               if any(s_["s"] == "assign" and s_["rv"]["k"] == "agg" and s_["rv"].get("adt") == "core::result::Result" and s_["rv"].get("variant") == "Ok"
+                      and s_["place"]["l"] in into_ret for s_ in J.blocks[i]["stmts"])]
+    cut = frozenset((sw, ok_t) for (sw, ok_t, err_t) in sws if ok_t is not None and ok_t != err_t)
+    ok = False
+    for (sw, ok_t, err_t) in sws:
+        if err_t is None or err_t == ok_t:
+            continue
+        if jba.path([err_t], ok_rets, cut_edges=cut, incl=True) is not None:
+            ok = True
+    only_q = bool(sws) and all(sw in {J.blocks[br]["term"]["target"] for (br, _, _, _) in jba.try_sites()} for (sw, _, _) in sws)
+    ctx.ob(rid, "%s|callback-Err-can-become-job-result" % J.key, ok, where=ctx.where(J, cb),
+           detail="the callback's Err side can produce the job's exit status (an Ok(future))" if ok else
+           (("the callback's error is only returned with `?`: an ImmediateExit status (already-failed target, exit 32) aborts the whole scheduler "
+             "instead of becoming this job's result, ignoring --keep-going") if only_q else "the callback's Err arm never yields a job result"))
